@@ -913,6 +913,20 @@ pub fn main_tess(args: &[String]) -> i32 {
                 gens.push(gens[j] + d * 10f64.powf(r2.gen_range(-12.0..-8.5)));
             }
             let id = inputs.len();
+            if k % 3 == 2 {
+                // known finding F14: several hundred generators on a common sphere (Fibonacci lattice, constant radius)
+                let m = [200usize, 300, 400][(k / 3) % 3];
+                let rr = [0.3, 0.2, 0.4][(k / 3 + seed as usize) % 3];
+                let mut g2: Vec<DVec3> = if k % 2 == 0 { vec![DVec3::splat(0.5)] } else { vec![] };
+                for i in 0..m {
+                    let z = 1.0 - 2.0 * (i as f64 + 0.5) / m as f64;
+                    let r = (1.0 - z * z).sqrt();
+                    let phi = i as f64 * 2.399963229728653;
+                    g2.push(DVec3::new(0.5 + rr * r * phi.cos(), 0.5 + rr * r * phi.sin(), 0.5 + rr * z));
+                }
+                inputs.push(FInput { id, kind: "cosphere".into(), gens: g2, anchor: DVec3::ZERO, width: DVec3::ONE, dim: 3, per: false });
+                continue;
+            }
             if k % 2 == 1 {
                 // a tight cluster instead: two thirds of the points in a cube of side 1e-9 .. 1e-5
                 let c = DVec3::new(r2.gen_range(0.2..0.8), r2.gen_range(0.2..0.8), r2.gen_range(0.2..0.8));
